@@ -204,7 +204,7 @@ func (w *World) monitorAllDelivered(prop string) {
 			}
 		}
 	}
-	for k, v := range w.store.m {
+	for k, v := range w.records() {
 		if k != 0 && k&(1<<16) == 0 {
 			w.Violate(prop, "record-left-behind", "outbound record %#x still stored at quiescence (%d bytes)", k, len(v))
 		}
@@ -241,6 +241,13 @@ func init() {
 			prev(w)
 			w.monitorOrder()
 		}
+		return s
+	})
+	// the same history over mqtt.FileSystem on the in-memory file system
+	register("restartfs", func() *Scenario {
+		s := scenarios["restart"]()
+		s.FSStore = true
+		s.Faults = Faults{Crash: true, Cut: true}
 		return s
 	})
 	register("restart", func() *Scenario {
